@@ -3,10 +3,13 @@ import OdakModel.Exec.OpsWave
 import OdakModel.Exec.OpsGeom
 import OdakModel.Exec.OpsPolar
 import OdakModel.Exec.OpsRay
+import OdakModel.Exec.OpsColour
+import OdakModel.Exec.OpsSlicing
+import OdakModel.Exec.OpsFovea
 /-! `odakdrv`: reads one operation per line on stdin, prints the model's answer per line. -/
 namespace Odak.Exec
 
-def allOps : List (String × Handler) := opsIndex ++ opsWave ++ opsRot ++ opsPolar ++ opsRay ++ opsRays
+def allOps : List (String × Handler) := opsIndex ++ opsWave ++ opsRot ++ opsPolar ++ opsRay ++ opsRays ++ opsColour ++ opsSlicing ++ opsFovea
 
 def step (line : String) : String :=
   match (line.trimAscii.toString.splitOn " ").filter (· ≠ "") with
